@@ -444,6 +444,23 @@ pub fn check(case: &Case, idx: u64, acc: &mut Acc) {
                             acc.violate(&format!("sequence/named/{}", if step == 1 || step == 4 { "pair" } else { "single-after-pair" }), idx, cj(), json!({"text": text, "built_after": format!("{},{}", a, b), "date": fmt_day(z), "want_holiday": want.contains(&z)}), json!(!want.contains(&z)));
                         }
                     }
+                    // the same pair with the second calendar as settlement calendar, in lower, upper and mixed case
+                    let (ua, ub) = (a.to_uppercase(), b.to_uppercase());
+                    for text in [format!("{}|{}", a, b), format!("{}|{}", ua, ub), format!("{}|{}", a, ub), format!("{}|{}", ua, b), format!("{}|{}{}", a, &ub[..1], &b[1..])] {
+                        acc.eval();
+                        match NamedCal::try_new(&text) {
+                            Err(_) => acc.violate("sequence/named/piped-does-not-build", idx, cj(), json!({"text": text}), json!("Err")),
+                            Ok(nc) => {
+                                let bad = union_want.iter().find(|z| {
+                                    let d = to_ndt(**z);
+                                    nc.is_holiday(&d) != models[a].contains_key(*z) || nc.is_settlement(&d) == models[b].contains_key(*z)
+                                });
+                                if let Some(z) = bad {
+                                    acc.violate("sequence/named/piped", idx, cj(), json!({"text": text, "date": fmt_day(*z), "want_holiday": models[a].contains_key(z), "want_settlement": !models[b].contains_key(z)}), json!({"holiday": nc.is_holiday(&to_ndt(*z)), "settlement": nc.is_settlement(&to_ndt(*z))}));
+                                }
+                            }
+                        }
+                    }
                 }
             }
         }
@@ -662,7 +679,7 @@ pub fn run(ctx: &Ctx, replay_file: Option<String>) -> ! {
          one-offs) fires; weekends non-business; weekday non-holidays are business days. all/bus have no holidays. \
          fed == nyc minus Good Friday, date for date. tro tyo syd wlg mum: every weekday occurrence of each documented \
          fixed-date / Easter-linked holiday is a holiday (one-directional). Every name in the get_calendar docstring \
-         resolves. Supplementary and NOT exhaustive: before anything else 24 threads released together make the process's first name resolutions (every name must resolve, late holidays present). History independence: on one thread every name is resolved three times (in order, again, reversed) and named calendars 'a', 'a,b', 'a', 'b', 'b,a' are built for every ordered pair of the seven fully modelled calendars; with failing and differently spelt look-ups in between from the second pass on; every object obtained must still answer as its rules say. For the nine (fixing csv, calendar) pairs the calendar's business days over [first, last \
+         resolves. Supplementary and NOT exhaustive: before anything else 24 threads released together make the process's first name resolutions (every name must resolve, late holidays present). History independence: on one thread every name is resolved three times (in order, again, reversed) and named calendars 'a', 'a,b', 'a', 'b', 'b,a' are built for every ordered pair of the seven fully modelled calendars (and 'a|b' in lower, upper and mixed case); with failing and differently spelt look-ups in between from the second pass on; every object obtained must still answer as its rules say. For the nine (fixing csv, calendar) pairs the calendar's business days over [first, last \
          publication] are exactly the publication dates. Non-trivial: weekday holidays / documented names / weekday \
          non-business days in a fixing period.",
         json!({"calendars": 14, "dates": 84371, "fixing_files": 9}),
